@@ -271,15 +271,11 @@ func scheme(r *http.Request) string {
 		return xfp
 
 	case fwd != "" && xfp == "":
-		p := strings.SplitAfterN(fwd, "proto=", 2)
-		if len(p) == 1 {
-			break
+		// a Forwarded header without a usable proto parameter
+		// says nothing about the scheme
+		if p := forwardedProto(fwd); p != "" {
+			return p
 		}
-		n := strings.IndexRune(p[1], ';')
-		if n >= 0 {
-			return p[1][:n]
-		}
-		return p[1]
 	}
 
 	ws := strings.EqualFold(r.Header.Get("Upgrade"), "websocket")
@@ -293,6 +289,26 @@ func scheme(r *http.Request) string {
 	default:
 		return "http"
 	}
+}
+
+// forwardedProto returns the value of the first proto parameter of a
+// Forwarded header (RFC 7239 section 4) or an empty string if there is none.
+// The header is a comma separated list of elements which consist of
+// semicolon separated name=value pairs. Names are case-insensitive and
+// values may be quoted.
+func forwardedProto(fwd string) string {
+	for _, elem := range strings.Split(fwd, ",") {
+		for _, pair := range strings.Split(elem, ";") {
+			n := strings.IndexByte(pair, '=')
+			if n < 0 || !strings.EqualFold(strings.TrimSpace(pair[:n]), "proto") {
+				continue
+			}
+			if v := strings.Trim(strings.TrimSpace(pair[n+1:]), `"`); v != "" {
+				return v
+			}
+		}
+	}
+	return ""
 }
 
 func localPort(r *http.Request) string {
